@@ -95,6 +95,9 @@ const NEEDED: &[&str] = &[
     "client-wrapper/answer-to-earlier-composition",
     "dgram-transport/verified-after-retransmission",
     "dgram-transport/rejected",
+    "tamper/other-data-of-other-length-added",
+    "client-wrapper/continued-after-rejection",
+    "client-wrapper/signed-message-after-rejection-rejected",
     "middleware-exchange-verified",
     "client-wrapper/verified",
     "client-wrapper/rejected",
